@@ -1,2 +1,102 @@
+//! C05: matrix products follow the definition for every shape and transpose flag.
 use crate::*;
-pub fn run(_r: &mut Rng, _o: &mut Fails) {}
+use compute::prelude::*;
+use compute::linalg::{matmul, matmul_blocked};
+
+fn reference(a: &[f64], b: &[f64], ra: usize, ca: usize, rb: usize, cb: usize, ta: bool, tb: bool) -> Option<(Vec<f64>, usize, usize)> {
+    let (m, l) = if ta { (ca, ra) } else { (ra, ca) };
+    let (l2, n) = if tb { (cb, rb) } else { (rb, cb) };
+    if l != l2 { return None; }
+    let ea = |i: usize, k: usize| if ta { a[k * ca + i] } else { a[i * ca + k] };
+    let eb = |k: usize, j: usize| if tb { b[j * cb + k] } else { b[k * cb + j] };
+    let mut c = vec![0.; m * n];
+    for i in 0..m { for j in 0..n { let mut s = 0.; for k in 0..l { s += ea(i, k) * eb(k, j); } c[i * n + j] = s; } }
+    Some((c, m, n))
+}
+
+pub fn run(rng: &mut Rng, out: &mut Fails) {
+    for ra in 1..=5usize { for ca in 1..=5usize { for rb in 1..=5usize { for cb in 1..=5usize {
+        let a = rng.ivec(ra * ca, -4, 4);
+        let b = rng.ivec(rb * cb, -4, 4);
+        for (ta, tb) in [(false, false), (true, false), (false, true), (true, true)] {
+            let inp = format!("A {}x{} {:?}, B {}x{} {:?}, transpose_a={} transpose_b={}", ra, ca, a, rb, cb, b, ta, tb);
+            let want = reference(&a, &b, ra, ca, rb, cb, ta, tb);
+            let got = catch(|| matmul(&a, &b, ra, rb, ta, tb));
+            match (&want, &got) {
+                (None, Some(g)) => fail(out, "matmul", "C05.matmul.valid", inp.clone(), format!("returned {:?}", g), "panic (non-conformable)".into()),
+                (Some((w, _, _)), None) => fail(out, "matmul", "C05.matmul.no_valid_input_rejected", inp.clone(), "panic".into(), format!("{:?}", w)),
+                (Some((w, _, _)), Some(g)) => if g != w { fail(out, "matmul", "C05.matmul.entry", inp.clone(), format!("{:?}", g), format!("{:?}", w)) },
+                _ => {}
+            }
+            if let Some((w, m, n)) = &want {
+                for bs in 1..=(2 * ra.max(ca).max(rb).max(cb)) {
+                    let gb = catch(|| matmul_blocked(&a, &b, ra, rb, ta, tb, bs));
+                    match gb { None => fail(out, "matmul_blocked", "C05.blocked.no_valid_input_rejected", format!("{} bsize={}", inp, bs), "panic".into(), format!("{:?}", w)),
+                        Some(g) => if &g != w { fail(out, "matmul_blocked", "C05.blocked.entry", format!("{} bsize={}", inp, bs), format!("{:?}", g), format!("{:?}", w)) } }
+                }
+            } else if catch(|| matmul_blocked(&a, &b, ra, rb, ta, tb, 2)).is_some() { fail(out, "matmul_blocked", "C05.blocked.valid", inp.clone(), "returned".into(), "panic".into()); }
+            // Dot trait on matrices
+            let ma = Matrix::new(a.clone(), ra as i32, ca as i32);
+            let mb = Matrix::new(b.clone(), rb as i32, cb as i32);
+            let name = match (ta, tb) { (false, false) => "dot", (true, false) => "t_dot", (false, true) => "dot_t", _ => "t_dot_t" };
+            for form in 0..4 {
+                let g = catch(|| -> Matrix { match (form, ta, tb) {
+                    (0, false, false) => ma.dot(&mb), (0, true, false) => ma.t_dot(&mb), (0, false, true) => ma.dot_t(&mb), (0, true, true) => ma.t_dot_t(&mb),
+                    (1, false, false) => ma.dot(mb.clone()), (1, true, false) => ma.t_dot(mb.clone()), (1, false, true) => ma.dot_t(mb.clone()), (1, true, true) => ma.t_dot_t(mb.clone()),
+                    (2, false, false) => (&ma).dot(&mb), (2, true, false) => (&ma).t_dot(&mb), (2, false, true) => (&ma).dot_t(&mb), (2, true, true) => (&ma).t_dot_t(&mb),
+                    (_, false, false) => (&ma).dot(mb.clone()), (_, true, false) => (&ma).t_dot(mb.clone()), (_, false, true) => (&ma).dot_t(mb.clone()), (_, true, true) => (&ma).t_dot_t(mb.clone()),
+                } });
+                let f = format!("Matrix::{}(Matrix)", name);
+                match (&want, g) {
+                    (None, Some(g)) => fail(out, &f, "C05.dot.valid", inp.clone(), format!("returned {}x{}", g.nrows, g.ncols), "panic".into()),
+                    (Some((w, _, _)), None) => fail(out, &f, "C05.dot.no_valid_input_rejected", inp.clone(), "panic".into(), format!("{:?}", w)),
+                    (Some((w, m, n)), Some(g)) => if g.nrows != *m || g.ncols != *n || &g.data.v != w { fail(out, &f, "C05.dot.entry", inp.clone(), format!("{}x{} {:?}", g.nrows, g.ncols, g.data.v), format!("{}x{} {:?}", m, n, w)) },
+                    _ => {}
+                }
+            }
+        }
+        if out.len() > 5 { return; }
+    } } } }
+    // vector promotion: Matrix.Vector (vector as a column), Vector.Matrix (vector as a row), Vector.Vector
+    for r in 1..=5usize { for c in 1..=5usize {
+        let a = rng.ivec(r * c, -4, 4);
+        let m = Matrix::new(a.clone(), r as i32, c as i32);
+        for vl in 1..=5usize {
+            let v = rng.ivec(vl, -4, 4);
+            let vv = Vector::new(v.clone());
+            let inp = format!("M {}x{} {:?}, v {:?}", r, c, a, v);
+            // M.v (dot, dot_t) and M^T.v (t_dot, t_dot_t)
+            for (k, name) in ["dot", "dot_t", "t_dot", "t_dot_t"].iter().enumerate() {
+                let t = k >= 2;
+                let want = reference(&a, &v, r, c, vl, 1, t, false).map(|x| x.0);
+                let g = catch(|| -> Vector { match k { 0 => m.dot(&vv), 1 => m.dot_t(&vv), 2 => m.t_dot(&vv), _ => m.t_dot_t(&vv) } });
+                let f = format!("Matrix::{}(Vector)", name);
+                match (&want, g) { (None, Some(g)) => fail(out, &f, "C05.dot.valid", inp.clone(), format!("returned {:?}", g.v), "panic".into()),
+                    (Some(w), None) => fail(out, &f, "C05.dot.no_valid_input_rejected", inp.clone(), "panic".into(), format!("{:?}", w)),
+                    (Some(w), Some(g)) => if &g.v != w { fail(out, &f, "C05.dot.entry", inp.clone(), format!("{:?}", g.v), format!("{:?}", w)) }, _ => {} }
+                let g2 = catch(|| -> Vector { match k { 0 => (&m).dot(vv.clone()), 1 => (&m).dot_t(vv.clone()), 2 => (&m).t_dot(vv.clone()), _ => (&m).t_dot_t(vv.clone()) } });
+                if let (Some(w), Some(g)) = (&want, g2) { if &g.v != w { fail(out, &f, "C05.dot.entry", inp.clone(), format!("{:?}", g.v), format!("{:?}", w)); } }
+            }
+            // v.M (dot, t_dot) and v.M^T (dot_t, t_dot_t)
+            for (k, name) in ["dot", "t_dot", "dot_t", "t_dot_t"].iter().enumerate() {
+                let t = k >= 2;
+                let want = reference(&v, &a, 1, vl, r, c, false, t).map(|x| x.0);
+                let g = catch(|| -> Vector { match k { 0 => vv.dot(&m), 1 => vv.t_dot(&m), 2 => vv.dot_t(&m), _ => vv.t_dot_t(&m) } });
+                let f = format!("Vector::{}(Matrix)", name);
+                match (&want, g) { (None, Some(g)) => fail(out, &f, "C05.dot.valid", inp.clone(), format!("returned {:?}", g.v), "panic".into()),
+                    (Some(w), None) => fail(out, &f, "C05.dot.no_valid_input_rejected", inp.clone(), "panic".into(), format!("{:?}", w)),
+                    (Some(w), Some(g)) => if &g.v != w { fail(out, &f, "C05.dot.entry", inp.clone(), format!("{:?}", g.v), format!("{:?}", w)) }, _ => {} }
+                let g2 = catch(|| -> Vector { match k { 0 => (&vv).dot(m.clone()), 1 => (&vv).t_dot(m.clone()), 2 => (&vv).dot_t(m.clone()), _ => (&vv).t_dot_t(m.clone()) } });
+                if let (Some(w), Some(g)) = (&want, g2) { if &g.v != w { fail(out, &f, "C05.dot.entry", inp.clone(), format!("{:?}", g.v), format!("{:?}", w)); } }
+            }
+        }
+        if out.len() > 5 { return; }
+    } }
+    for n in 0..=20usize {
+        let x = rng.ivec(n, -5, 5); let y = rng.ivec(n, -5, 5);
+        let w: f64 = x.iter().zip(&y).map(|(a, b)| a * b).sum();
+        let vx = Vector::new(x.clone()); let vy = Vector::new(y.clone());
+        let g: f64 = vx.dot(&vy);
+        if n > 0 && g != w { fail(out, "Vector::dot(Vector)", "C05.dot.vv", format!("{:?} {:?}", x, y), format!("{}", g), format!("{}", w)); }
+    }
+}
